@@ -14,6 +14,17 @@ import sys
 import time
 
 VERIF = os.path.dirname(os.path.dirname(os.path.abspath(__file__)))
+# the checks are run from a private COPY of /verif (built Coq tree included), so that Gen files regenerated from the
+# patched checkout never touch /verif/coq and concurrent checks of /repo are not disturbed
+RUNDIR = os.environ.get("VERIF_SEED_RUNDIR", "/var/tmp/verif_seedrun")      # + "_<property>": one copy per property
+
+
+def sync_rundir():
+    global RUNDIR
+    RUNDIR = "%s_%s" % (RUNDIR.split("_C")[0], sys.argv[1])
+    os.makedirs(RUNDIR, exist_ok=True)
+    subprocess.run(["rsync", "-a", "--delete", "--exclude", ".git", "--exclude", "scratch", "--exclude", "replays",
+                    "--exclude", "evidence", "--exclude", "seeded", VERIF + "/", RUNDIR + "/"], check=True)
 
 
 def sh(cmd, cwd=None, env=None, timeout=3600):
@@ -61,9 +72,10 @@ def main():
         meta["ran"].append("demo.py: exit %d with the change, exit %d on /repo" % (rc1, rc0))
         meta["confirmed"] = meta["tests_ok"] and rc1 == 1 and rc0 == 0
         meta["checks"] = {}
+        sync_rundir()
         for c in checks:
             t0 = time.time()
-            rc, out = sh("YAQL_REPO=%s ./check %s --tier %s" % (copy, c, tier), cwd=VERIF, timeout=5400)
+            rc, out = sh("YAQL_REPO=%s ./check %s --tier %s" % (copy, c, tier), cwd=RUNDIR, timeout=5400)
             viol = [l for l in out.split("\n") if l.startswith("VIOLATION") or l.strip().startswith("what:") or l.strip().startswith("broken:")]
             replay_info = None
             mm = re.search(r"replay=(\S+)", out)
